@@ -675,6 +675,9 @@ def run_long_history(params, known):
 def scenarios(tier):
     depth = 4 if tier == 'thorough' else 3
     out = []
+    # (the largest graph of the unchanged tree has a few thousand states; the bounds below only stop a search that a
+    # defect has made unbounded - state that grows with the history - and are reported as caps when hit)
+    caps = dict(max_states=300000, time_cap_s=7200) if tier == 'thorough' else dict(max_states=40000, time_cap_s=900)
     for table in TABLES:
         # split by first event for parallelism; the thorough tier goes one arrival deeper under the two tables
         # with overlapping entries in opposite orders (an hour of search for all five brought nothing new)
@@ -682,13 +685,13 @@ def scenarios(tier):
         for first in range(MAIN):
             out.append(dict(name='%s/first-%s' % (table, MENU[first][0]), kind='graph',
                             params=dict(table=table, max_depth=tdepth, first=first), dev_bound=0, use_snapshot=False,
-                            liveness=False, max_states=500000, weight=1))
+                            liveness=False, weight=1, **caps))
     # fragments of look-alike bundles (same source and time, next sequence number; a millisecond later), interleaved
     for table in ('deliver-first', 'overlap-b'):
         for first in TWINS:
             out.append(dict(name='twins/%s/first-%s' % (table, MENU[first][0]), kind='graph',
                             params=dict(table=table, max_depth=depth + 1, first=first, menu=TWINS), dev_bound=0, use_snapshot=False,
-                            liveness=False, max_states=500000, weight=1))
+                            liveness=False, weight=1, **caps))
     out.append(dict(name='admin-delivery', kind='enum', runner='run_admin_delivery', params=dict(name='admin-delivery'), weight=3))
     out.append(dict(name='report-over-mtu', kind='enum', runner='run_report_over_mtu', params=dict(name='report-over-mtu'), weight=3))
     out.append(dict(name='ipn3', kind='enum', runner='run_ipn3', params=dict(name='ipn3'), weight=3))
